@@ -59,9 +59,9 @@ def xns(s):
 
 
 def gen_elem(rng, depth, prot=False):
-    name = rng.choice(PROTECTED + ["title", "section", "emphasis", "keyword", "value", "a"])
+    name = rng.choice(PROTECTED + ["title", "section", "emphasis", "keyword", "value", "a", "données", "título"])
     attrs = []
-    for k in rng.sample(["id", "scope", "lang", "xsi:type", "xsi:nil", "system"], rng.randint(0, 3)):
+    for k in rng.sample(["id", "scope", "lang", "xsi:type", "xsi:nil", "system", "größe"], rng.randint(0, 3)):
         attrs.append((k, rand_text(rng, rng.randint(0, 4)).replace("\r", " ").replace("\x0b", "").replace("\x0c", "").replace("\x1c", "")))
     kids = []
     if depth < 3:
@@ -71,9 +71,15 @@ def gen_elem(rng, depth, prot=False):
     s = "<" + name + "".join(f" {k}={quoteattr(v)}" for k, v in attrs)
     if depth == 0:
         s += f' xmlns:xsi="{XSI}"'
-    s += ">" + escape(chunks[0].replace("\x0b", "").replace("\x0c", "").replace("\x1c", ""))
+    def text(c):
+        c = c.replace("\x0b", "").replace("\x0c", "").replace("\x1c", "")
+        # the same characters written as a CDATA section (no references are interpreted inside one) or escaped
+        if c and "]]>" not in c and rng.random() < 0.2:
+            return "<![CDATA[" + c + "]]>"
+        return escape(c)
+    s += ">" + text(chunks[0])
     for k, c in zip(kids, chunks[1:]):
-        s += k + escape(c.replace("\x0b", "").replace("\x0c", "").replace("\x1c", ""))
+        s += k + text(c)
     return s + f"</{name}>"
 
 
